@@ -10,7 +10,8 @@
 (* with 0..MaxN+1 entries over the world identities, crossed with every     *)
 (* receiver state, restricted to at most MaxDist simultaneous deviations   *)
 (* from a canonical valid message (topic, type, version, instance ok; set  *)
-(* MemberOk; sender 0; no extra; entries <<[1,valid]>> or                  *)
+(* MemberOk; sender 0; the flavour's own extra (core: none); entries       *)
+(* <<[1,valid]>> or                                                        *)
 (* <<[1,valid],[2,valid]>>).  A deviation is one scalar field with another *)
 (* value, one entry with another kind, one entry with another identity     *)
 (* than the canonical one of its position, no entries, or more than MaxN    *)
@@ -21,6 +22,7 @@
 EXTENDS GossipValidateProps, Json, TLC
 
 CONSTANTS
+    MCFlavours, \* subset of C04Flavours
     MCTypes,    \* subset of MsgTypes
     MaxDist,    \* cases with at most that many deviations are visited (Design is checked on them)
     EmitDist,   \* of those, the ones with at most EmitDist deviations are printed ...
@@ -32,15 +34,15 @@ vars == <<c, stage>>
 B(b) == IF b THEN 1 ELSE 0
 Min2(a, b) == IF a < b THEN a ELSE b
 
-SDev(m) == B(~m.topicOk) + B(~m.typeOk) + B(~m.versionOk) + B(~m.instOk) + B(m.set # "MemberOk")
-           + B(m.snd # 0) + B(m.extra # "none")
+SDev(fl, m) == B(~m.topicOk) + B(~m.typeOk) + B(~m.versionOk) + B(~m.instOk) + B(m.set # "MemberOk")
+               + B(m.snd # 0) + B(m.extra # OwnExtra(fl))
 
 RECURSIVE ESum(_, _)
 ESum(q, i) == IF i > Len(q) THEN 0 ELSE B(q[i].k # "valid") + B(q[i].r # i) + ESum(q, i + 1)
 EDev(q) == B(Len(q) = 0) + B(Len(q) > MaxN) + ESum(q, 1)
 EDevMax == 1 + 2 * (MaxN + 1)
 
-Dev(m) == SDev(m) + EDev(m.entries)
+Dev(fl, m) == SDev(fl, m) + EDev(m.entries)
 
 EntrySeqs(mt) == UNION {[1..len -> [r : WorldRanks, k : Kinds(mt)]] : len \in 0..(MaxN + 1)}
 (* evaluated once (TLCEval forces TLC's lazy function values) *)
@@ -49,28 +51,36 @@ EntriesLE == TLCEval([mt \in MsgTypes |-> TLCEval([d \in 0..EDevMax |-> TLCEval(
 Senders(mt) == IF mt = "shares" THEN 0..(N + 1) ELSE {0}
 ShareStates(mt) == IF mt = "shares" THEN SharesCls ELSE {"none"}
 
+(* the flavour assemblies get the database with one config per set class, without stored
+   shares, with two stored-key classes for keys messages (the verdict of the flavour validators does
+   not depend on these tables) *)
+RecvOk(fl, mt, lay, sto, shs) ==
+    fl = "core" \/ (lay = "rich" /\ shs = "none" /\ sto \in (IF mt = "keys" THEN {"none", "wrong1"} ELSE {"none"}))
+
 Init ==
     /\ stage = 0
-    /\ \E mt \in MCTypes : \E tp \in BOOLEAN : \E ty \in BOOLEAN : \E ve \in BOOLEAN : \E ins \in BOOLEAN :
+    /\ \E fl \in MCFlavours : \E mt \in MCTypes : \E tp \in BOOLEAN : \E ty \in BOOLEAN : \E ve \in BOOLEAN : \E ins \in BOOLEAN :
        \E set \in Sets : \E snd \in Senders(mt) : \E ex \in Extras :
        \E lay \in Layouts : \E sto \in StoredCls : \E shs \in ShareStates(mt) :
-          /\ c = [m    |-> [mt |-> mt, topicOk |-> tp, typeOk |-> ty, versionOk |-> ve, instOk |-> ins,
+          /\ RecvOk(fl, mt, lay, sto, shs)
+          /\ c = [fl   |-> fl,
+                  m    |-> [mt |-> mt, topicOk |-> tp, typeOk |-> ty, versionOk |-> ve, instOk |-> ins,
                             set |-> set, snd |-> snd, entries |-> <<>>, extra |-> ex],
                   recv |-> [layout |-> lay, stored |-> sto, shares |-> shs]]
-          /\ SDev(c.m) <= MaxDist
+          /\ SDev(fl, c.m) <= MaxDist
 
 Next ==
     /\ stage = 0
     /\ stage' = 1
-    /\ \E q \in EntriesLE[c.m.mt][Min2(MaxDist - SDev(c.m), EDevMax)] : c' = [c EXCEPT !.m.entries = q]
+    /\ \E q \in EntriesLE[c.m.mt][Min2(MaxDist - SDev(c.fl, c.m), EDevMax)] : c' = [c EXCEPT !.m.entries = q]
 
 Spec == Init /\ [][Next]_vars
 
 Complete == stage = 1
 
 (* the property layer holds on the outcome the code-shaped layer computes *)
-Design == Complete => DesignHolds(c.m, c.recv)
+Design == Complete => DesignHolds(c.fl, c.m, c.recv)
 
-EmitInv == (Emit /\ Complete /\ Dev(c.m) <= EmitDist) => PrintT(<<"CASE", ToJson(c)>>)
+EmitInv == (Emit /\ Complete /\ Dev(c.fl, c.m) <= EmitDist) => PrintT(<<"CASE", ToJson(c)>>)
 
 =============================================================================
